@@ -367,10 +367,20 @@ def run(prop, tier="quick", seed=0, replay=None, only=None):
             # ... and then with the universal facts (instantiated only at the index terms that occurred) and the sums together, on
             # the re-explored path of the obligation
             sat_obs = [o for o in obs if o.verdict == "sat"]
+            # (bounded effort: one genuine counter-model per obligation name is enough to report it; at most three instances
+            # per name and a total time budget per run are re-explored -- what is not looked at counts as "unknown")
+            looked = 0
             for i_, (o, r) in enumerate(zip(sat_obs, checks)):
                 if r in ("genuine", "no-sums") and o.kind != "cover":
+                    if looked >= 3 or time.time() - t0 > REVALIDATION_DEADLINE_S or any(
+                            c2 in ("genuine", "no-sums") and sat_obs[j_].meta.get("countermodel_validation") == "genuine"
+                            for j_, c2 in enumerate(checks[:i_])):
+                        if not any(sat_obs[j_].meta.get("countermodel_validation") == "genuine" for j_ in range(i_)):
+                            checks[i_] = "unknown"
+                        continue
                     cdv = [c_ for c_ in contracts if c_.name == o.meta.get("contract")]
                     if cdv:
+                        looked += 1
                         r2 = revalidate(cdv[0], o)
                         o.meta["countermodel_validation"] = r2
                         if r2 in ("refuted", "unknown"):
@@ -486,6 +496,9 @@ def run(prop, tier="quick", seed=0, replay=None, only=None):
           f"discharged={ev['coverage']['discharged']} known_findings={len(known_hits)} "
           f"native_runs={sum(r['runs'] for r in nat.values())} wall={time.time() - t0:.1f}s")
     return 0
+
+
+REVALIDATION_DEADLINE_S = 240       # after this much wall time of a run no further counter-model is re-explored
 
 
 def validate_sums(ob, timeout_ms=20000, max_terms=300, rounds=8):
